@@ -63,7 +63,11 @@ class C16(Plugin):
                 target = rng.choice(list(range(ncols)) + [ncols])
             header = Some(["h%d" % j for j in range(ncols)]) if (mode == 1 and rng.random() < 0.6) else None
             sep = "\t"
-            yield [recs, d, tag, flags, rows, col, target, header, mode]
+            # staging: with `early` < len(recs) the same bulk call (pandas and, where it exists, file) is first made on the same
+            # cells while the converter holds only the first `early` records; the other records are then added to the SAME converter
+            # and the observed call follows (bulk = element-wise application of what the scalar method answers NOW)
+            early = rng.choice([len(recs)] * 3 + list(range(len(recs))))
+            yield [recs, d, tag, flags, rows, col, target, header, mode, [], early]
 
     def observe(self, case):
         import pandas as pd
@@ -71,10 +75,15 @@ class C16(Plugin):
         import curies
 
         recs, d, tag, (st, pa, am), rows, col, target, header, mode = case[:9]
-        c = curies.Converter(qprops.mk_records(recs), delimiter=d)
+        early = case[10] if len(case) > 10 else len(recs)
         kw = dict(strict=bool(st), passthrough=bool(pa))
         if tag < 2:
             kw["ambiguous"] = bool(am)
+        c = curies.Converter(qprops.mk_records(recs[:early]), delimiter=d)
+        if early < len(recs):
+            self.warm_up(c, tag, kw, rows, col, header)
+            for r in qprops.mk_records(recs[early:]):
+                c.add_record(r)
         # "element-wise" is judged against what the implementation's own scalar method answers on each cell of the column
         # (the method that C16_scalar names for this operation and these flags); the answers travel with the case
         if tag == 0:
@@ -85,7 +94,7 @@ class C16(Plugin):
             sf = getattr(c, FN[tag])
         cells = list(dict.fromkeys(r[col] for r in rows if len(r) > col))
         table = [[x, qprops.outcome(lambda: sf(x, strict=bool(st), passthrough=bool(pa)), qprops.v_ostr)] for x in cells]
-        case = list(case[:9]) + [table]
+        case = list(case[:9]) + [table, early]
         if mode == 0:
             ncols = max([len(r) for r in rows], default=col + 1)
             df = pd.DataFrame(rows, columns=list(range(ncols))) if rows else pd.DataFrame({j: pd.Series([], dtype=object) for j in range(ncols)})
@@ -127,6 +136,33 @@ class C16(Plugin):
         finally:
             os.unlink(path)
 
+    def warm_up(self, c, tag, kw, rows, col, header):
+        """The same bulk operation, on the same cells, before the converter is complete; results and errors are discarded."""
+        import pandas as pd
+
+        ncols = max([len(r) for r in rows], default=col + 1)
+        full = [r for r in rows if len(r) == ncols]
+        try:
+            if full:
+                getattr(c, "pd_" + FN[tag])(pd.DataFrame(full, columns=list(range(ncols))), column=col, **kw)
+        except Exception:
+            pass
+        if tag < 2:
+            os.makedirs(os.path.join(ROOT, "_build", "tmp"), exist_ok=True)
+            fd, path = tempfile.mkstemp(suffix=".tsv", dir=os.path.join(ROOT, "_build", "tmp"))
+            os.close(fd)
+            try:
+                with open(path, "w", newline="") as f:
+                    w = csv.writer(f, delimiter="\t", lineterminator="\n")
+                    if header is not None:
+                        w.writerow(header.v)
+                    w.writerows(rows)
+                getattr(c, "file_" + FN[tag])(path, column=col, header=header is not None, **kw)
+            except Exception:
+                pass
+            finally:
+                os.unlink(path)
+
     def nontrivial(self, case, obs):
         rows = case[4]
         if len(rows) < 2:
@@ -144,6 +180,8 @@ class C16(Plugin):
         o = acc.setdefault("outcome_hist", {})
         o[str(obs[0])] = o.get(str(obs[0]), 0) + 1
         acc["cells_converted"] = acc.get("cells_converted", 0) + len(case[4])
+        if len(case) > 10 and case[10] < len(case[0]):
+            acc["cases_with_a_warm_up_call_before_the_converter_was_complete"] = acc.get("cases_with_a_warm_up_call_before_the_converter_was_complete", 0) + 1
 
     def sample(self, case, obs):
         return {"records": plain(case[0]), "op": ("file_" if case[8] else "pd_") + FN[case[2]], "flags [strict, passthrough, ambiguous]": case[3],
